@@ -14,6 +14,7 @@ package daemon
 //@   attr blocking-ops select#1
 //@   attr select#1 blocking only recv(finished) recv(interrupt)
 //@   ghost before call Start assert order: sigNotified
+//@   ghost before call Start assert env: len(cmd.Env) == envLen() + 2 && (forall i int {cmd.Env[i]} :: 0 <= i && i < envLen() ==> cmd.Env[i] == environ(i))
 //@   ensures handshake: cmdStarted ==> recvSeq == old(recvSeq) + 1
 //@   ensures pid.encode: cmdStarted ==> binWriteOrder == any(binary.LittleEndian) && typeIs(binWriteVal, uint32) && payload(binWriteVal, uint32) == startedPid % 4294967296
 
@@ -25,6 +26,7 @@ package daemon
 //@ func Launch
 //@   requires len(os.Args) >= 1
 //@   modifies everything
+//@   ghost before call Run assert env: len(cmd.Env) == envLen() + 2 && (forall i int {cmd.Env[i]} :: 0 <= i && i < envLen() ==> cmd.Env[i] == environ(i))
 //@   ensures pid.decode: err == nil ==> binReadOrder == any(binary.LittleEndian) && typeIs(binReadTarget, *uint32) && pid == *payload(binReadTarget, *uint32)
 //@   ensures fail: err != nil ==> pid == 0
 
